@@ -96,6 +96,15 @@ Fixpoint h_run (rk : hred) (p : hparam) (lam : R) (targets : list (list R)) (st 
   | s :: tl => let r := h_step rk p lam targets st s in r :: h_run rk p lam targets (fst r) tl
   end.
 
+(* the same with the target seen at every call given per step (forward(target) may pass a different explicit target at
+   every call, or None to use the default): steps = [(targets_t, spikes_t)] *)
+Fixpoint h_run_v (rk : hred) (p : hparam) (lam : R) (st : hstate)
+         (steps : list (list (list R) * list (list bool))) : list (hstate * uparts) :=
+  match steps with
+  | [] => []
+  | s :: tl => let r := h_step rk p lam (fst s) st (snd s) in r :: h_run_v rk p lam (fst r) tl
+  end.
+
 (* ================================================================== 2. Accumulator *)
 (* appending a part: `if value is not None: self._pos.append(value)`; pos = torch.sum(stack(parts), 0) or None *)
 Definition part_add (a x : option R) : option R :=
